@@ -100,6 +100,33 @@ def run(tier, seed):
             problems.append("kinetic_energy_gradient is not M⁻¹ p")
         if not common.close(mass.kinetic_energy(np.asarray(mom, dtype=float).reshape(d, 1)), 0.5 * (z.T @ z).item(), 1e-8, 1e-12):
             problems.append("K(A z) is not ½ zᵀz")
+        # the object owns its state: neither the array the caller passed in nor the array `.matrix` returned is the live state
+        if mk in ("diag", "full") and not problems:
+            try:
+                arg = np.array([1.0, 4.0, 9.0][:d] + [2.0] * max(0, d - 3)) if mk == "diag" else spd(rnd, d)
+                shape_before = arg.shape
+                mm2 = MM.Diagonal(arg) if mk == "diag" else MM.Full(arg)
+                if arg.shape != shape_before:
+                    problems.append(f"the constructor changed the shape of the caller's array from {shape_before} to {arg.shape}")
+                rep = np.array(mm2.matrix, dtype=float).copy()
+                arg *= 7.0                                   # the caller goes on using its array
+                got = mm2.matrix
+                got_is_array = isinstance(got, np.ndarray)
+                if got_is_array:
+                    got[...] = got * 3.0                     # ... and the array that .matrix returned
+                cols2 = []
+                for i in range(d):
+                    mm2.rng = ScriptedRNG(normals=list(np.eye(d)[:, i]))
+                    cols2.append(np.asarray(mm2.generate_momentum(), dtype=float).reshape(d, 1))
+                A2 = np.hstack(cols2)
+                M2 = np.array(mm2.matrix, dtype=float)
+                p2 = np.array([[rnd.gauss(0, 1)] for _ in range(d)])
+                k2 = float(mm2.kinetic_energy(p2.copy()))
+                if not (np.allclose(M2, rep, rtol=1e-12, atol=0) and np.allclose(A2 @ A2.T, M2, rtol=1e-8, atol=1e-10)
+                        and common.close(k2, 0.5 * (p2.T @ np.linalg.inv(rep) @ p2).item(), 1e-8, 1e-12)):
+                    problems.append("after the caller modified the array it had passed in / the array .matrix had returned, the reported matrix, the momentum factor and the kinetic energy no longer belong to one matrix")
+            except Exception as e:
+                problems.append(f"mass matrix raised {e!r} after the caller's arrays were modified")
         if problems:
             findings.append(Finding("C03", f"{mk} mass: {problems[0]}", {"kind": "static", "mass": mk, "problem": problems[0][:30]},
                                     {"oracle": "static", "stimulus": stim, "problems": problems}))
@@ -116,7 +143,7 @@ def run(tier, seed):
                         {"momentum": np.ravel(mom).tolist(), "kinetic": float(kin), "velocity": np.ravel(vel).tolist()}, "mass matrix methods differ from model")
 
     # ---- BFGS histories -----------------------------------------------------------------------
-    sb = Suite("C03.bfgs", "random histories over {in-trajectory update(position, gradient), accept, reject, observe} on hmclab's BFGS through its public "
+    sb = Suite("C03.bfgs", "random histories over {in-trajectory update(position, gradient), queued update(m, g), accept, reject, observe} on hmclab's BFGS (with other BFGS objects used in between) through its public "
                "methods vs the model state machine; after every op: Minv, factor, momentum, kinetic energy, velocity (1e-7 relative); "
                "non-trivial = history with a successful update followed by a reject; distinct by stimulus hash")
     reqs, metas = [], []
@@ -148,7 +175,21 @@ def run(tier, seed):
 
         last_accept = public_state()
         for k in range(nops):
-            kind = rnd.choice(["U", "U", "A", "R", "O"])
+            kind = rnd.choice(["U", "U", "A", "R", "O", "Q"])
+            if kind == "Q":
+                # update(m, g): queued (the object is not greedy) until the next accept(); another BFGS object is created and used in between:
+                # objects do not share their queues
+                m = np.array([[rnd.gauss(0, 1)] for _ in range(d)])
+                g = H @ m + b + 0.3 * np.array([[rnd.gauss(0, 1)] for _ in range(d)])
+                with quiet(), np.errstate(all="ignore"):
+                    bf.update(m.copy(), g.copy())
+                    other = MM.BFGS(d + 1, np.zeros((d + 1, 1)), np.ones((d + 1, 1)))
+                    other.update(np.ones((d + 1, 1)), 2 * np.ones((d + 1, 1)))
+                pieces.append(f"Q {vhex(m)} {vhex(g)}")
+                ops.append(("update-queued", m.ravel().tolist(), g.ravel().tolist()))
+                Mi, F = public_state()
+                obs.append((k, Mi, F))
+                continue
             if kind == "U" and d >= 2 and rnd.random() < 0.3:
                 # an update the library's Cholesky is likely to refuse: curvature s.y tiny but positive with huge |s|, |y|
                 # (the exact BFGS formula keeps the metric positive definite; in floating point the result is rounding noise)
@@ -194,8 +235,13 @@ def run(tier, seed):
                 ops.append(("update", m.ravel().tolist(), g.ravel().tolist()))
                 pending_update = True
             elif kind == "A":
-                with quiet():
-                    bf.accept()
+                try:
+                    with quiet():
+                        bf.accept()
+                except Exception as e:
+                    ops.append(("accept",))
+                    problems.append((k, f"accept() raised {e!r}"))
+                    break
                 pieces.append("A")
                 ops.append(("accept",))
                 pending_update = False
@@ -301,6 +347,14 @@ def run(tier, seed):
         dHa = (dist.misfit(qa) + mA.kinetic_energy(pa)) - (dist.misfit(q0) + mA.kinetic_energy(pa0))
         dHb = (dist.misfit(qb) + mB.kinetic_energy(pb)) - (dist.misfit(q0) + mB.kinetic_energy(pb0))
         stim = {"integrator": integ, "n": n, "target": tdesc, "f": f, "eps": eps, "M": M.tolist(), "z": z.ravel().tolist(), "q0": q0.ravel().tolist()}
+        fin_a = bool(np.all(np.isfinite(qa)) and np.isfinite(dHa))
+        fin_b = bool(np.all(np.isfinite(qb)) and np.isfinite(dHb))
+        if not (fin_a and fin_b):
+            # an unstable step on the quartic target overflows in both runs alike (inf, then nan): nothing to compare, and nan != nan is no difference;
+            # at the overflow boundary only one of the two may still be finite: indeterminate
+            se.count("trajectory diverged to inf/nan (skipped)")
+            se.indeterminate += 1
+            continue
         se.case(stim, nontrivial=(f != 1.0 and n >= 2), sample={"f": f, "dH_A": float(dHa), "dH_B": float(dHb)})
         if not (np.allclose(qa, qb, rtol=1e-8, atol=1e-10) and common.close(dHa, dHb, 1e-6, 1e-9)):
             se.disagree(stim, {"q": qa.ravel().tolist(), "dH": float(dHa)}, {"q": qb.ravel().tolist(), "dH": float(dHb)}, "equivalent settings give different proposals")
